@@ -1,6 +1,7 @@
 import IstioModel.C01.Theorems
 import IstioModel.C01.ProtocolTheorems
-import IstioModel.C01.ProtocolV2Theorems
+import IstioModel.C01.ProtocolV2On
+import IstioModel.C01.Connection
 
 /-!
 # C01 - the modelled push decision inside the convergence protocol
@@ -101,6 +102,14 @@ def modelDecV2 (root : Nat) (view : ProtocolV2.World Key → π → Proxy) :
     π → XType → ProtocolV2.World Key → ProtocolV2.Req Key σ Reason → Bool :=
   fun p t wl r => pushDecision root t (reqOfV2 r) (decidingProxy (view r.push p) (view wl p))
 
+/-- Reasons of ordinary changes. A change announced with `HeadlessEndpointUpdate` is a MARKER (only the
+    endpoints of a headless service moved; the generators' own semantics of that marker is in
+    `Spec.Affects`, rows `rc = .headless`); it does not say "the content of the ServiceEntry key
+    changed", so histories with marker events are outside `convergence_model`. Without this
+    restriction the frame hypothesis would be unsatisfiable: a `[.headless]` ServiceEntry request
+    skips CDS, which would force cluster generation to ignore services altogether. -/
+def OrdinaryReason (x : Reason) : Prop := x ≠ .headless
+
 /-- relevance of a key between two worlds = its single-key request, with the reasons of the merged
     request, is pushed for the proxy as it looks between those worlds -/
 def SingleKeyRelAt (root : Nat) (rs : List Reason) (view : ProtocolV2.World Key → π → Proxy) :
@@ -108,26 +117,27 @@ def SingleKeyRelAt (root : Nat) (rs : List Reason) (view : ProtocolV2.World Key 
   fun wl w' k p t =>
     pushDecision root t { keys := [k], reasons := rs, forced := false } (decidingProxy (view w' p) (view wl p)) = true
 
-/-- The frame hypothesis for the modelled decision over dynamic views: whenever every key on which
-    two worlds differ would - alone, with the request's reasons, for the proxy as it looks between
-    the two worlds - be skipped, generation from the two (from-scratch) snapshots agrees.  This is a
-    statement about the REAL generators, scope computation and skip tables together; it is what the
-    `converge` stream validates, and it is false on the recorded findings. -/
+/-- The frame hypothesis for the modelled decision over dynamic views, for requests of ordinary
+    reasons: whenever every key on which two worlds differ would - alone, with the request's reasons,
+    for the proxy as it looks between the two worlds - be skipped, generation from the two
+    (from-scratch) snapshots agrees.  A statement about the REAL generators, scope computation and
+    skip tables together; it is what the `converge` stream validates (and it fails on the recorded
+    findings). `InstantiationExample.lean` shows it is satisfiable together with the other hypotheses. -/
 def ModelFrame (root : Nat) (view : ProtocolV2.World Key → π → Proxy)
     (gen : σ → π → XType → ρ) (build : ProtocolV2.World Key → σ) : Prop :=
-  ∀ (rs : List Reason) (wl w' : ProtocolV2.World Key) (p : π) (t : XType),
+  ∀ (rs : List Reason), (∀ x ∈ rs, OrdinaryReason x) → ∀ (wl w' : ProtocolV2.World Key) (p : π) (t : XType),
     (∀ k, wl k ≠ w' k → ¬ SingleKeyRelAt root rs view wl w' k p t) → gen (build wl) p t = gen (build w') p t
 
 omit [DecidableEq π] in
-/-- Under `ModelFrame` the modelled decision satisfies `SkipOK`: by monotonicity a skipped merged
-    request skips each of its keys alone (same reasons, same proxy), and the keys on which the two
-    worlds differ are all announced. -/
-theorem modelDecV2_skipOK (root : Nat) (view : ProtocolV2.World Key → π → Proxy)
+/-- Under `ModelFrame` the modelled decision satisfies `SkipOKOn OrdinaryReason`: by monotonicity a
+    skipped merged request skips each of its keys alone (same reasons, same proxy), and the keys on
+    which the two worlds differ are all announced. -/
+theorem modelDecV2_skipOKOn (root : Nat) (view : ProtocolV2.World Key → π → Proxy)
     (gen : σ → π → XType → ρ) (build : ProtocolV2.World Key → σ)
     (hframe : ModelFrame root view gen build) :
-    ProtocolV2.SkipOK gen build (modelDecV2 (σ := σ) root view) := by
-  intro p t wl r _ hdec hcov
-  apply hframe r.reasons wl r.push p t
+    ProtocolV2.SkipOKOn OrdinaryReason gen build (modelDecV2 (σ := σ) root view) := by
+  intro p t wl r hrs _ hdec hcov
+  apply hframe r.reasons hrs wl r.push p t
   intro k hk hrel
   have hmem : k ∈ r.keys := hcov k hk
   have hmono := pushDecision_mono root t { keys := [k], reasons := r.reasons, forced := false } (reqOfV2 r)
@@ -142,20 +152,120 @@ theorem modelDecV2_skipOK (root : Nat) (view : ProtocolV2.World Key → π → P
     reasons, for proxies whose scope, targets and gateways are recomputed from the configuration
     (current and previous view), over a snapshot that is rebuilt partially: if the partial rebuild
     equals a from-scratch build whenever it is told every changed key (`RebuildOK`) and the
-    generators satisfy `ModelFrame`, then after every finite history, under every batching and
-    interleaving, every connected client in every quiescent state holds exactly what a freshly
-    started control plane generates from the final configuration. -/
+    generators satisfy `ModelFrame`, then after every finite history of ORDINARY changes (no
+    headless-endpoint marker events), under every batching and interleaving, every connected client
+    in every quiescent state holds exactly what a freshly started control plane generates from the
+    final configuration. (Limits: `change` is atomic - see `ProtocolV3.store_ahead_breaks_convergence`;
+    the scope is taken as always refreshed - see `convergence_model_refresh` below.) -/
 theorem convergence_model (root : Nat) (view : ProtocolV2.World Key → π → Proxy)
     (gen : σ → π → XType → ρ) (build : ProtocolV2.World Key → σ)
     (rebuild : σ → List Key → Bool → ProtocolV2.World Key → σ)
     (hrb : ProtocolV2.RebuildOK build rebuild) (hframe : ModelFrame root view gen build)
     (w0 : ProtocolV2.World Key) (h0 : π → XType → ρ) (l : List (ProtocolV2.Step Key π Reason))
+    (hl : ProtocolV2.StepsCarry OrdinaryReason l)
     (hq : ProtocolV2.Quiescent (ProtocolV2.run rebuild gen (modelDecV2 (σ := σ) root view) (ProtocolV2.init build w0 h0) l)) :
     ∀ p t, (ProtocolV2.run rebuild gen (modelDecV2 (σ := σ) root view) (ProtocolV2.init build w0 h0) l).conn p = true →
       (ProtocolV2.run rebuild gen (modelDecV2 (σ := σ) root view) (ProtocolV2.init build w0 h0) l).held p t =
         gen (build (ProtocolV2.run rebuild gen (modelDecV2 (σ := σ) root view) (ProtocolV2.init build w0 h0) l).world) p t :=
-  ProtocolV2.convergence build rebuild gen (modelDecV2 (σ := σ) root view) hrb
-    (modelDecV2_skipOK root view gen build hframe) w0 h0 l hq
+  ProtocolV2.convergence_on OrdinaryReason build rebuild gen (modelDecV2 (σ := σ) root view) hrb
+    (modelDecV2_skipOKOn root view gen build hframe) w0 h0 l hl hq
+
+/-! ### The proxy state is only refreshed when `computeProxyState` says so -/
+
+/-- What `computeProxyState` leaves in the CURRENT fields of a proxy for request `r`: the parts it
+    refreshes come from the view of the snapshot being pushed (`cur`), the parts it does not refresh
+    stay as they were at the last sync (`prev`). The decision which parts to refresh is the modelled
+    `pushConnectionRefresh` (tied to the real code by the generated table, section S). -/
+def refreshedView (r : Req) (cur prev : Proxy) : Proxy :=
+  let f := pushConnectionRefresh prev r
+  { cur with
+      scope := if f.scope then cur.scope else prev.scope,
+      targets := if f.targets then cur.targets else prev.targets,
+      localSvc := if f.targets then cur.localSvc else prev.localSvc,
+      mg := if f.gateway then cur.mg else prev.mg }
+
+/-- "Not refreshed => unchanged": when `computeProxyState` does not refresh a part of the proxy state
+    on a non-forced request that announces every changed key, that part of the proxy's view did not
+    change. This is the soundness of the kind switch of `computeProxyState` (ServiceEntry,
+    DestinationRule, VirtualService, PeerAuthentication, Sidecar, Ingress reset the scope; Gateway,
+    Ingress and a refresh of the service targets reset the gateways; a ServiceEntry key of the proxy's
+    namespace refreshes the service targets); validated by the `converge` stream, not proved. -/
+def RefreshOK (view : ProtocolV2.World Key → π → Proxy) : Prop :=
+  ∀ (wl w' : ProtocolV2.World Key) (p : π) (r : Req), r.forced = false → (∀ k, wl k ≠ w' k → k ∈ r.keys) →
+    ((pushConnectionRefresh (view wl p) r).scope = false → (view w' p).scope = (view wl p).scope) ∧
+    ((pushConnectionRefresh (view wl p) r).targets = false →
+        (view w' p).targets = (view wl p).targets ∧ (view w' p).localSvc = (view wl p).localSvc) ∧
+    ((pushConnectionRefresh (view wl p) r).gateway = false → (view w' p).mg = (view wl p).mg)
+
+omit [DecidableEq π] in
+/-- Under `RefreshOK` the partially refreshed proxy IS the proxy's view of the snapshot. -/
+theorem refreshedView_eq (view : ProtocolV2.World Key → π → Proxy) (h : RefreshOK view)
+    (wl w' : ProtocolV2.World Key) (p : π) (r : Req) (hf : r.forced = false)
+    (hcov : ∀ k, wl k ≠ w' k → k ∈ r.keys) :
+    refreshedView r (view w' p) (view wl p) = view w' p := by
+  obtain ⟨hs, ht, hg⟩ := h wl w' p r hf hcov
+  have h1 : (if (pushConnectionRefresh (view wl p) r).scope = true then (view w' p).scope else (view wl p).scope)
+      = (view w' p).scope := by
+    cases hfs : (pushConnectionRefresh (view wl p) r).scope with
+    | true => simp
+    | false => simp [hs hfs]
+  have h2 : (if (pushConnectionRefresh (view wl p) r).targets = true then (view w' p).targets else (view wl p).targets)
+      = (view w' p).targets := by
+    cases hft : (pushConnectionRefresh (view wl p) r).targets with
+    | true => simp
+    | false => simp [(ht hft).1]
+  have h3 : (if (pushConnectionRefresh (view wl p) r).targets = true then (view w' p).localSvc else (view wl p).localSvc)
+      = (view w' p).localSvc := by
+    cases hft : (pushConnectionRefresh (view wl p) r).targets with
+    | true => simp
+    | false => simp [(ht hft).2]
+  have h4 : (if (pushConnectionRefresh (view wl p) r).gateway = true then (view w' p).mg else (view wl p).mg)
+      = (view w' p).mg := by
+    cases hfg : (pushConnectionRefresh (view wl p) r).gateway with
+    | true => simp
+    | false => simp [hg hfg]
+  unfold refreshedView
+  simp only [h1, h2, h3, h4]
+
+/-- the modelled decision with the refresh decisions of `computeProxyState` taken into account -/
+def modelDecV2R (root : Nat) (view : ProtocolV2.World Key → π → Proxy) :
+    π → XType → ProtocolV2.World Key → ProtocolV2.Req Key σ Reason → Bool :=
+  fun p t wl r =>
+    pushDecision root t (reqOfV2 r) (decidingProxy (refreshedView (reqOfV2 r) (view r.push p) (view wl p)) (view wl p))
+
+/-- **`convergence_model_refresh`.** The same conclusion for the decision that keeps the unrefreshed
+    parts of the proxy state, under `RefreshOK`.  (Remaining approximation, stated plainly: the
+    model's previous scope is the scope at the last sync; in istiod `PrevSidecarScope` is the scope
+    before the last RESET, which - under `RefreshOK` - is the same scope when this request resets it,
+    and an older, additional dependency set when it does not: the real filter then keeps at least
+    the keys the model keeps, and a decision that skips less keeps `SkipOKOn`, `skipOKOn_of_skips_less`.) -/
+theorem convergence_model_refresh (root : Nat) (view : ProtocolV2.World Key → π → Proxy)
+    (gen : σ → π → XType → ρ) (build : ProtocolV2.World Key → σ)
+    (rebuild : σ → List Key → Bool → ProtocolV2.World Key → σ)
+    (hrb : ProtocolV2.RebuildOK build rebuild) (hframe : ModelFrame root view gen build)
+    (hrefresh : RefreshOK view)
+    (w0 : ProtocolV2.World Key) (h0 : π → XType → ρ) (l : List (ProtocolV2.Step Key π Reason))
+    (hl : ProtocolV2.StepsCarry OrdinaryReason l)
+    (hq : ProtocolV2.Quiescent (ProtocolV2.run rebuild gen (modelDecV2R (σ := σ) root view) (ProtocolV2.init build w0 h0) l)) :
+    ∀ p t, (ProtocolV2.run rebuild gen (modelDecV2R (σ := σ) root view) (ProtocolV2.init build w0 h0) l).conn p = true →
+      (ProtocolV2.run rebuild gen (modelDecV2R (σ := σ) root view) (ProtocolV2.init build w0 h0) l).held p t =
+        gen (build (ProtocolV2.run rebuild gen (modelDecV2R (σ := σ) root view) (ProtocolV2.init build w0 h0) l).world) p t := by
+  have hok : ProtocolV2.SkipOKOn OrdinaryReason gen build (modelDecV2R (σ := σ) root view) := by
+    intro p t wl r hrs hf hdec hcov
+    have heq : modelDecV2R (σ := σ) root view p t wl r = modelDecV2 (σ := σ) root view p t wl r := by
+      unfold modelDecV2R modelDecV2
+      rw [refreshedView_eq view hrefresh wl r.push p (reqOfV2 r) rfl hcov]
+    rw [heq] at hdec
+    exact modelDecV2_skipOKOn root view gen build hframe p t wl r hrs hf hdec hcov
+  exact ProtocolV2.convergence_on OrdinaryReason build rebuild gen (modelDecV2R (σ := σ) root view) hrb hok w0 h0 l hl hq
+
+omit [DecidableEq π] in
+/-- A decision that skips at most where a sound decision skips is sound. -/
+theorem skipOKOn_of_skips_less (G : Reason → Prop) (gen : σ → π → XType → ρ) (build : ProtocolV2.World Key → σ)
+    (dec dec' : π → XType → ProtocolV2.World Key → ProtocolV2.Req Key σ Reason → Bool)
+    (hle : ∀ p t wl r, dec' p t wl r = false → dec p t wl r = false)
+    (h : ProtocolV2.SkipOKOn G gen build dec) : ProtocolV2.SkipOKOn G gen build dec' :=
+  fun p t wl r hrs hf hdec hcov => h p t wl r hrs hf (hle p t wl r hdec) hcov
 
 end V2
 
